@@ -1336,6 +1336,12 @@ func (v *Verifier) sliceHeapSortByName(name string) string {
 	if srt, ok := v.heapSorts[name]; ok {
 		return srt
 	}
+	switch strings.TrimPrefix(name, "H_") {
+	case "uint8", "byte", "uint16", "uint32", "uint64", "int", "int8", "int16", "int32", "int64", "uint":
+		if v.mode != "bv" {
+			return SArr(SInt, SArr(SInt, SInt))
+		}
+	}
 	unsupported("unknown heap %s", name)
 	return ""
 }
